@@ -52,6 +52,7 @@ class Run:
         self.transitions = None
         self.traces = None
         self.internal_errors = []
+        self.state_hashes = set()
 
     # ---- accumulation -------------------------------------------------
     def add_result(self, res):
@@ -71,6 +72,8 @@ class Run:
                 self.outcomes[out] = self.outcomes.get(out, 0) + 1
         for sig, case, detail in res.get("viol", ()):
             self.add_violation(sig, case, detail)
+        for st in res.get("states", ()):
+            self.state_hashes.add(st)
         for k, v in res.get("count", {}).items():
             self.extra[k] = self.extra.get(k, 0) + v
 
